@@ -20,8 +20,8 @@ REPR_ERRORS = (-10, -11, -12)
 
 def configs(ctx: Ctx) -> typing.List[E.Config]:
     if ctx.thorough:
-        return [E.C_ANY, E.C_LITTLE, E.C_BIG, E.C_ANY_ASSERT, E.C_LITTLE_ASSERT, E.CPP14, E.CPP17, E.CPP20, E.CPP14_LITTLE, E.CPP17_LITTLE_ASSERT, E.CPP17_PMR, E.PY]
-    return [E.C_ANY, E.C_LITTLE_ASSERT, E.CPP14, E.CPP17_LITTLE_ASSERT, E.PY]
+        return [E.C_ANY, E.C_LITTLE, E.C_BIG, E.C_ANY_ASSERT, E.C_LITTLE_ASSERT, E.C_LITTLE_OVERRIDE, E.CPP14, E.CPP17, E.CPP20, E.CPP14_LITTLE, E.CPP17_LITTLE_ASSERT, E.CPP17_PMR, E.PY]
+    return [E.C_ANY, E.C_LITTLE_ASSERT, E.C_LITTLE_OVERRIDE, E.CPP14, E.CPP17_LITTLE_ASSERT, E.PY]
 
 
 def feature(d: space.TypeDef) -> str:
